@@ -169,13 +169,13 @@ func prepare(prop, tier string, seed int) (*runCtx, error) {
 		r := ex.VerifyFunc(ct)
 		rc.funcs = append(rc.funcs, r)
 		for _, o := range r.Obls {
-			if o.Label == "" || o.Label == "frame" || strings.HasPrefix(o.Label, prop+".") {
+			if o.Label == "" || o.Label == "frame" || labelServes(o.Label, prop) {
 				rc.obls = append(rc.obls, o)
 			}
 		}
 	}
 	for _, l := range cs.Lemmas {
-		if !strings.HasPrefix(l.Label, prop+".") {
+		if !labelServes(l.Label, prop) {
 			continue
 		}
 		os_, err := ex.LemmaObligations(l)
@@ -190,7 +190,17 @@ func prepare(prop, tier string, seed int) (*runCtx, error) {
 
 func hasLemmas(cs *vc.ContractSet, prop string) bool {
 	for _, l := range cs.Lemmas {
-		if strings.HasPrefix(l.Label, prop+".") {
+		if labelServes(l.Label, prop) {
+			return true
+		}
+	}
+	return false
+}
+
+// labelServes reports whether a clause label (one or more comma-separated "Cxx.name" parts) belongs to prop.
+func labelServes(label, prop string) bool {
+	for _, part := range strings.Split(label, ",") {
+		if strings.HasPrefix(strings.TrimSpace(part), prop+".") {
 			return true
 		}
 	}
@@ -198,32 +208,31 @@ func hasLemmas(cs *vc.ContractSet, prop string) bool {
 }
 
 func contractServes(ct *vc.Contract, prop string) bool {
-	pfx := prop + "."
 	for _, c := range ct.Ensures {
-		if strings.HasPrefix(c.Label, pfx) {
+		if labelServes(c.Label, prop) {
 			return true
 		}
 	}
 	for _, c := range ct.NoPanic {
-		if strings.HasPrefix(c.Label, pfx) {
+		if labelServes(c.Label, prop) {
 			return true
 		}
 	}
 	for _, g := range ct.Guards {
-		if strings.HasPrefix(g.Label, pfx) {
+		if labelServes(g.Label, prop) {
 			return true
 		}
 	}
 	for _, cl := range ct.Loops {
 		for _, c := range cl {
-			if strings.HasPrefix(c.Label, pfx) {
+			if labelServes(c.Label, prop) {
 				return true
 			}
 		}
 	}
 	for _, cl := range ct.Steps {
 		for _, c := range cl {
-			if strings.HasPrefix(c.Label, pfx) {
+			if labelServes(c.Label, prop) {
 				return true
 			}
 		}
